@@ -33,6 +33,7 @@ func runC08(c *core.Ctx) {
 	ruleIndexClamps(c)
 	ruleDCTPlaneCharge(c)
 	ruleJPEGHeaderValidation(c)
+	ruleFuncTableSlots(c, "C08-R14")
 	ruleAliasHygiene(c, [3]string{"C08-R11", "C08-R12", "C08-R13"}, "pdf/internal/filter/jbig2", "pdf/internal/filter/dct/jpeg")
 }
 
@@ -1134,5 +1135,206 @@ func ruleJPEGHeaderValidation(c *core.Ctx) {
 		for _, m := range missing {
 			o.Fail("the reference decoder rejects a frame header [%s]; the fork has no such check", strings.TrimSpace(m))
 		}
+	})
+}
+
+// ruleFuncTableSlots (C08-R14): a call through a package-level table of
+// function values, indexed by a value that comes from the input, must not be
+// able to select an empty slot: calling a nil function value panics.  For
+// every such call in the decoders the slots of the table's literal are
+// enumerated; for every empty slot the path condition of the call together
+// with "index == slot" must be unsatisfiable (or the call is guarded by a
+// test of the slot itself).
+func ruleFuncTableSlots(c *core.Ctx, rule string) {
+	c.Check(rule, "decoders/function-tables", "no decoder calls through an empty slot of a table of functions", func(o *core.Ob) {
+		calls, scanned := 0, 0
+		for _, pkg := range c.Prog.RepoPkgs() {
+			sp := core.ShortPkg(pkg.PkgPath)
+			if sp != "pdf" && !strings.HasPrefix(sp, "pdf/internal/filter") {
+				continue
+			}
+			for _, fn := range c.Prog.Funcs(pkg) {
+				if fn.Decl.Body == nil || c.Prog.IsTestFile(fn.Decl.Pos()) {
+					continue
+				}
+				info := fn.Info()
+				scanned++
+				// reads of a slot of a package-level table of functions
+				isTableRead := func(e ast.Expr) (*ast.IndexExpr, *types.Var, int64) {
+					ix, ok := ast.Unparen(e).(*ast.IndexExpr)
+					if !ok {
+						return nil, nil, 0
+					}
+					id, ok := ast.Unparen(ix.X).(*ast.Ident)
+					if !ok {
+						return nil, nil, 0
+					}
+					tv, ok := info.ObjectOf(id).(*types.Var)
+					if !ok || tv.Pkg() == nil || tv.Parent() != tv.Pkg().Scope() {
+						return nil, nil, 0
+					}
+					var elem types.Type
+					length := int64(-1)
+					switch t := tv.Type().Underlying().(type) {
+					case *types.Array:
+						elem, length = t.Elem(), t.Len()
+					case *types.Slice:
+						elem = t.Elem()
+					default:
+						return nil, nil, 0
+					}
+					if _, isFunc := elem.Underlying().(*types.Signature); !isFunc {
+						return nil, nil, 0
+					}
+					return ix, tv, length
+				}
+				has := false
+				ast.Inspect(fn.Decl.Body, func(n ast.Node) bool {
+					if e, ok := n.(ast.Expr); ok {
+						if ix, _, _ := isTableRead(e); ix != nil {
+							has = true
+						}
+					}
+					return true
+				})
+				if !has {
+					continue
+				}
+				g := fn.Graph()
+				for _, v := range g.Vs {
+					var root ast.Node = v.AST
+					if root == nil && v.Cond != nil {
+						root = v.Cond.Expr
+					}
+					if root == nil {
+						continue
+					}
+					if _, isLoop := root.(*ast.RangeStmt); isLoop {
+						continue
+					}
+					if _, isLoop := root.(*ast.ForStmt); isLoop {
+						continue
+					}
+					nilCompared := map[*ast.IndexExpr]bool{}
+					ast.Inspect(root, func(n ast.Node) bool {
+						if be, ok := n.(*ast.BinaryExpr); ok && (be.Op == token.EQL || be.Op == token.NEQ) {
+							for _, pr := range [][2]ast.Expr{{be.X, be.Y}, {be.Y, be.X}} {
+								if ix, _, _ := isTableRead(pr[0]); ix != nil && core.IsNil(info, pr[1]) {
+									nilCompared[ix] = true
+								}
+							}
+						}
+						return true
+					})
+					ast.Inspect(root, func(n ast.Node) bool {
+						if _, isLit := n.(*ast.FuncLit); isLit {
+							return false
+						}
+						e, ok := n.(ast.Expr)
+						if !ok {
+							return true
+						}
+						ix, tv, length := isTableRead(e)
+						if ix == nil || nilCompared[ix] {
+							return true
+						}
+						_, init, ipkg := c.Prog.Var(core.ShortPkg(tv.Pkg().Path()), tv.Name())
+						cl, isCL := ast.Unparen(init).(*ast.CompositeLit)
+						if init == nil || !isCL {
+							o.Unrec("%s: the table %s is not initialised by a literal", fn.Key, tv.Name())
+							return true
+						}
+						calls++
+						o.At(fn.Site(ix, "slot of "+tv.Name()+" read"))
+						filled := map[int64]bool{}
+						next := int64(0)
+						for _, el := range cl.Elts {
+							val := el
+							if kv, isKV := el.(*ast.KeyValueExpr); isKV {
+								k, isK := core.IntConst(ipkg.TypesInfo, kv.Key)
+								if !isK {
+									o.Unrec("%s: a key of the table %s is not constant", fn.Key, tv.Name())
+									return true
+								}
+								next, val = k, kv.Value
+							}
+							if !core.IsNil(ipkg.TypesInfo, val) {
+								filled[next] = true
+							}
+							next++
+						}
+						if length < next {
+							length = next
+						}
+						var empty []int64
+						for k := int64(0); k < length && k < 4096; k++ {
+							if !filled[k] {
+								empty = append(empty, k)
+							}
+						}
+						o.Fact("%s: %s has %d slots, %d empty", c.Prog.Pos(ix.Pos()), tv.Name(), length, len(empty))
+						if len(empty) == 0 {
+							return true
+						}
+						// guarded by a test of the slot itself, or the value is kept in a
+						// local that is tested before every call?
+						slot := strings.ReplaceAll(core.ExprStr(ix), " ", "")
+						if g.GuardedBy(v, func(a core.Atom) bool {
+							cmp, ok := a.AsCmp()
+							return ok && cmp.Op == token.NEQ && strings.ReplaceAll(core.ExprStr(cmp.L), " ", "") == slot && core.IsNil(info, cmp.R)
+						}) {
+							return true
+						}
+						if as, isAs := v.AST.(*ast.AssignStmt); isAs && len(as.Lhs) == len(as.Rhs) {
+							for i, r := range as.Rhs {
+								if ast.Unparen(r) != ast.Expr(ix) {
+									continue
+								}
+								local := core.ObjOf(info, as.Lhs[i])
+								if local == nil {
+									continue
+								}
+								allGuarded, any := true, false
+								for _, w := range g.Vs {
+									if w.AST == nil {
+										continue
+									}
+									ast.Inspect(w.AST, func(m ast.Node) bool {
+										if call, ok := m.(*ast.CallExpr); ok && core.ObjOf(info, call.Fun) == local {
+											any = true
+											if !g.GuardedBy(w, func(a core.Atom) bool {
+												cmp, ok := a.AsCmp()
+												return ok && cmp.Op == token.NEQ && core.ObjOf(info, cmp.L) == local && core.IsNil(info, cmp.R)
+											}) {
+												allGuarded = false
+											}
+										}
+										return true
+									})
+								}
+								if any && allGuarded {
+									return true
+								}
+							}
+						}
+						atoms := g.DominatingAtoms(v)
+						for _, k := range empty {
+							f := core.Formula{Fn: fn, Atoms: append(append([]core.Atom{}, atoms...), core.Atom{Tag: ix.Index, Expr: &ast.BasicLit{Kind: token.INT, Value: itoa(int(k))}})}
+							sat, decided := c.Prog.Satisfiable(f)
+							if !decided {
+								o.Unrec("%s: whether slot %d of %s can be selected was not decided", fn.Key, k, tv.Name())
+								continue
+							}
+							if sat {
+								o.FailAt(fn.Site(ix, ""), "slot %d of %s is empty and the index %s can have that value here (conditions: %s): calling the value panics on a nil function", k, tv.Name(), core.ExprStr(ix.Index), c.Prog.FormulaString(core.Formula{Fn: fn, Atoms: atoms}))
+							}
+						}
+						return true
+					})
+				}
+			}
+		}
+		o.Count(scanned)
+		o.Fact("%d functions scanned, %d reads of slots of function tables", scanned, calls)
 	})
 }
